@@ -17,7 +17,7 @@
     real process killed by iotrace's crash-after-n), the same front-end is run again, and a `crash` line carries what it left.
     TLC accepts the line only if the rebuilt image is the crash image the spec derives and the re-run result equals
     RunAgainOf(image) = Final with the journal empty, the flag clear and no other block differing."""
-import os, sys, json, random, shutil, struct, gzip, hashlib, itertools, time, concurrent.futures as cf
+import os, sys, json, random, shutil, struct, gzip, hashlib, itertools, time, threading, concurrent.futures as cf
 from common import VERIF, fast_tmp, seed, die_broken, NPROC, tool_env
 from common import run as sh
 import build, tlc as T, tracecheck
@@ -38,12 +38,14 @@ SB_OFF = 1024
 FLAG_OFF = SB_OFF + 96           # s_feature_incompat (le32); INCOMPAT_RECOVER = 0x4 lives in its lowest byte
 
 # ---- fields the property does not cover (block-exact comparison of the re-run result with the uninterrupted result) ----
-# Tools run with fixed clocks (E2FSCK_TIME, E2FSPROGS_FAKE_TIME), so time stamps and mount counts come out equal and ARE compared.
+# Tools run with fixed clocks (E2FSCK_TIME, E2FSPROGS_FAKE_TIME), so the check/mount time stamps and mount counts come out equal and ARE
+# compared.  s_wtime is the time of the last superblock WRITE: a re-run that finds nothing left to do does not write the superblock
+# at all, so s_wtime keeps the value of whichever run wrote it last (observed on tests/j_corrupt_revoke_rcount).
 # primary superblock (offsets inside the 1024-byte superblock): s_kbytes_written accumulates the number of KiB each tool
 # invocation wrote -- an interrupted run plus a re-run have written a different amount than one run -- and the superblock
 # checksum that covers it.  Everything else in the superblock (feature flags, s_state, times, counts, journal and error
 # fields) is compared.
-SB_EXCLUDED = [(0x178, 8, "s_kbytes_written"), (0x3FC, 4, "s_checksum")]
+SB_EXCLUDED = [(48, 4, "s_wtime"), (0x274, 1, "s_wtime_hi"), (0x178, 8, "s_kbytes_written"), (0x3FC, 4, "s_checksum")]
 # journal superblock: s_sequence (offset 24): a run that finds the journal already empty stores s_sequence + 1 (jbd2_journal_recover
 # sets j_transaction_sequence = s_sequence + 1 when s_start == 0), so the value counts the recovery attempts; and the v2/v3
 # checksum over the block (offset 0xFC).  s_start, s_errno, features, geometry, uuid are compared.
@@ -357,7 +359,8 @@ def trace_cfg(work):
     consts.update(c03.CONF_DEVS)
     consts.update(CONF_DEVS)
     T.write_cfg(cfg, spec="TraceSpec", constants=consts,
-                invariants=["Idempotent", "KeepsRequesting", "FlagAfterEmpty", "FlagAfterEmptyCrash", "Done"], postcondition="TraceAccepted")
+                invariants=["Idempotent", "KeepsRequesting", "FlagAfterEmpty", "FlagAfterEmptyCrash", "Done", "SbAtomicOrDev", "ErrorRememberedOrDev"],
+                postcondition="TraceAccepted")
     return cfg
 
 
@@ -394,7 +397,8 @@ def route_devs(vd, cases, bad):
 
 # ---------------------------------------------------------------------------------------------- model checking
 MC_INV = ["TypeOK", "Idempotent", "IdempotentSubsets", "NeverEmptyBeforeDurable", "KeepsRequesting", "FlagAfterEmpty",
-          "FlagAfterEmptyCrash", "ProductFormExact", "Done", "CrashedIdempotent", "NoBlockedWrite", "SbAtomic", "SbAtomicOrDev"]
+          "FlagAfterEmptyCrash", "ProductFormExact", "Done", "CrashedIdempotent", "NoBlockedWrite", "SbAtomic", "SbAtomicOrDev",
+          "ErrorRemembered", "ErrorRememberedSubsets"]
 PROP_INV = ["Idempotent", "KeepsRequesting", "FlagAfterEmpty", "Done", "CrashedIdempotent"]
 VARIANTS = [("SyncInRecover", "jbd2_journal_recover without sync_blockdev"),
             ("ReleaseAfterFlush", "journal superblock released (s_start = 0) before the flush"),
@@ -403,7 +407,7 @@ VARIANTS = [("SyncInRecover", "jbd2_journal_recover without sync_blockdev"),
 
 def mc_consts(**kw):
     c = dict(Blocks="{1, 2}", MaxPlan=3, MaxCrash=1, SyncInRecover="TRUE", ReleaseAfterFlush="TRUE", FlushFsyncs="TRUE", OpenFsyncs="TRUE",
-             DevSbPiecemeal="FALSE")
+             DevSbPiecemeal="FALSE", DevErrorLostOnCrash="FALSE")
     c.update(kw)
     return c
 
@@ -427,7 +431,7 @@ def model_check(ev, vd, tier, work):
             die_broken("TLC failed on JournalRun (%s): %s\n%s" % (label, r.error, r.out[-1500:]))
         if n == 0:
             dead = [a for a, (dist, taken) in r.coverage.items() if taken == 0 and a in
-                    ("Open", "CheckJsb", "Load", "ReplayWrite", "EndReplay", "SyncFs", "JsbRelease", "CloseFs", "Reopen", "ClearRecover", "FinalFlush", "WriteBack", "Crash", "RunAgain")]
+                    ("Open", "CheckJsb", "Load", "ReplayWrite", "EndReplay", "SyncFs", "JsbRelease", "CloseFs", "Reopen", "ClearRecover", "ErrFlush", "ErrClear", "FinalFlush", "WriteBack", "Crash", "RunAgain")]
             if dead or not r.coverage:
                 die_broken("vacuity: actions never taken in JournalRun: %s" % (dead or "no coverage reported"))
     # vacuity guard: every wrong ordering must be rejected
@@ -440,20 +444,22 @@ def model_check(ev, vd, tier, work):
             die_broken("vacuity: the wrong ordering '%s' (%s = FALSE) is not rejected by TLC: %s" % (what, flag, r.error or "no invariant violated"))
         rej[flag] = {"violated": r.violated, "distinct_until_counterexample": r.distinct}
     ev.cov["wrong_orderings_rejected"] = rej
-    # the named deviation: with it the atomic-superblock invariant must fail, everything else must still hold
-    cfg = os.path.join(work, "MC_JournalRun_dev.cfg")
-    T.write_cfg(cfg, spec="Spec", constants=mc_consts(DevSbPiecemeal="TRUE"), invariants=["SbAtomic"])
-    r = T.tlc(mod, cfg, workers=2, timeout=600, xmx="2g")
-    if r.violated != "SbAtomic":
-        die_broken("vacuity: DevSbPiecemeal = TRUE does not violate SbAtomic (%s)" % (r.error or r.violated))
-    cfg = os.path.join(work, "MC_JournalRun_dev2.cfg")
-    T.write_cfg(cfg, spec="Spec", constants=mc_consts(DevSbPiecemeal="TRUE"), invariants=[x for x in MC_INV if x != "SbAtomic"])
-    r = T.tlc(mod, cfg, workers=4, timeout=1200, xmx="4g")
-    ev.add_tlc(r, "JournalRun with DevSbPiecemeal (superblock sent in pieces): every invariant but SbAtomic")
-    if r.violated:
-        vd.violation("model:" + r.violated, "model: invariant %s violated in JournalRun with DevSbPiecemeal" % r.violated, {"tlc_tail": r.out[-4000:]})
-    elif not r.ok:
-        die_broken("TLC failed on JournalRun (DevSbPiecemeal): %s" % r.error)
+    # the named deviations: with each of them exactly its own invariant must fail, everything else must still hold
+    for dev, inv, others in (("DevSbPiecemeal", "SbAtomic", [x for x in MC_INV if x != "SbAtomic"]),
+                             ("DevErrorLostOnCrash", "ErrorRemembered", [x for x in MC_INV if not x.startswith("ErrorRemembered")])):
+        cfg = os.path.join(work, "MC_JournalRun_%s.cfg" % dev)
+        T.write_cfg(cfg, spec="Spec", constants=mc_consts(**{dev: "TRUE"}), invariants=[inv])
+        r = T.tlc(mod, cfg, workers=2, timeout=600, xmx="2g")
+        if r.violated != inv:
+            die_broken("vacuity: %s = TRUE does not violate %s (%s)" % (dev, inv, r.error or r.violated))
+        cfg = os.path.join(work, "MC_JournalRun_%s_rest.cfg" % dev)
+        T.write_cfg(cfg, spec="Spec", constants=mc_consts(**{dev: "TRUE"}), invariants=others)
+        r = T.tlc(mod, cfg, workers=4, timeout=1200, xmx="4g")
+        ev.add_tlc(r, "JournalRun with %s (what the pinned tree does): %s violated as expected, every other invariant holds" % (dev, inv))
+        if r.violated:
+            vd.violation("model:" + r.violated, "model: invariant %s violated in JournalRun with %s" % (r.violated, dev), {"tlc_tail": r.out[-4000:]})
+        elif not r.ok:
+            die_broken("TLC failed on JournalRun (%s): %s" % (dev, r.error))
 
 
 # ---------------------------------------------------------------------------------------------- conformance
@@ -540,7 +546,18 @@ def run(tier):
             die_broken(str(e))
         if not os.path.exists(IOTRACE):
             sh(["make", "-C", os.path.join(VERIF, "harness"), "-s", "all"])
-        model_check(ev, vd, tier, work)
+        # the model-checking part runs beside the tool runs (both are mostly child processes); joined before the verdict
+        mc_out = []
+
+        def mc_thread():
+            try:
+                model_check(ev, vd, tier, work)
+            except SystemExit as e:          # die_broken already printed CHECK-BROKEN
+                mc_out.append(("exit", e.code))
+            except BaseException as e:
+                mc_out.append(("exc", e))
+        th = threading.Thread(target=mc_thread)
+        th.start()
         try:
             profs = ["ext4_1k", "ext3_1k", "ext4_4k_csum64"]
             bases = {p: c03.Base(b, work, p) for p in profs}
@@ -599,6 +616,11 @@ def run(tier):
             for k in c.nontrivial:
                 ev.nontrivial(k)
         repo_images(ev, vd, b, work, tier, rng)
+        th.join()
+        if mc_out:
+            if mc_out[0][0] == "exit":
+                sys.exit(mc_out[0][1])
+            raise mc_out[0][1]
         ev.cov["rule"] = ("crash states (journal of the stratified C03 stream or repository j_* image, front-end, crash point, kept subset); non-trivial = a replayed "
                           "block or the journal-superblock write is pending and only a strict non-empty part of the pending writes survives, or a replayed block "
                           "and the journal superblock are pending together; distinct by (run, crash point, kept subset)")
@@ -608,7 +630,7 @@ def run(tier):
         for x in cl[:2]:
             ev.sample({"crash_line": strip(x), "pending_raw": x["_pending_raw"], "kept_raw": x["_kept_raw"]})
         ev.cov["checker_cmd"] = ("TRACE=<chunk> tlc -workers 1 -config Trace_JournalRun.cfg spec/Trace_JournalRun.tla (POSTCONDITION TraceAccepted, INVARIANT Idempotent, "
-                                 "KeepsRequesting, FlagAfterEmpty, FlagAfterEmptyCrash, Done)")
+                                 "KeepsRequesting, FlagAfterEmpty, FlagAfterEmptyCrash, Done; SbAtomicOrDev, ErrorRememberedOrDev with the deviations enabled)")
         ev.cov["excluded_fields"] = {"primary superblock": [x[2] for x in SB_EXCLUDED], "journal superblock": [x[2] for x in JSB_EXCLUDED]}
         ev.assumptions = ASSUMPTIONS
         return vd.finish()
@@ -620,9 +642,9 @@ ASSUMPTIONS = [
     "crash model: every pwrite/write issued since the last COMPLETED fsync/fdatasync may be lost independently (any subset survives, applied in program order; "
     "an older write of a location surviving a newer one is one of the subsets); a single pwrite is atomic per location (no torn 1 KiB/4 KiB block); "
     "fsync returns only after everything issued before it is durable",
-    "block-exact comparison of the re-run result with the uninterrupted result excludes exactly: primary superblock s_kbytes_written (8 bytes at 0x178: KiB written by the "
-    "tool invocations so far) and s_checksum (0x3FC); journal superblock s_sequence (offset 24: a run that finds the journal already empty stores s_sequence + 1) and its "
-    "checksum (0xFC).  Every other byte of the image is compared: s_start, needs_recovery, s_state, time stamps and mount counts (clocks are fixed), all data and metadata blocks",
+    "block-exact comparison of the re-run result with the uninterrupted result excludes exactly: primary superblock s_wtime (+ its high byte 0x274: time of the last superblock write), "
+    "s_kbytes_written (8 bytes at 0x178: KiB written by the tool invocations so far) and s_checksum (0x3FC); journal superblock s_sequence (offset 24: a run that finds the journal already empty stores s_sequence + 1) and its "
+    "checksum (0xFC).  Every other byte of the image is compared: s_start, needs_recovery, s_state, mount/check time stamps and mount counts (clocks are fixed), all data and metadata blocks",
     "the re-run uses the same front-end as the interrupted run; tools run with fixed E2FSCK_TIME / E2FSPROGS_FAKE_TIME",
     "Final of a generated journal is what the transcription of recovery.c in spec/Jbd2.tla computes with C03's registered deviations enabled (what an uninterrupted recovery yields); "
     "whether that equals the committed-transactions ground truth is property C03",
